@@ -103,6 +103,21 @@ async def _yield(plan):
             plan.log.append(getattr(t, "_verif_id", -1))
 
 
+class MissingDict(dict):
+    """A dict subclass with __missing__ (like collections.Counter / defaultdict without insertion)."""
+
+    def __missing__(self, key):
+        return "DEFAULT"
+
+
+def missing_doc(v):
+    if isinstance(v, dict):
+        return MissingDict({k: missing_doc(x) for k, x in v.items()})
+    if isinstance(v, list):
+        return [missing_doc(x) for x in v]
+    return v
+
+
 def wrap(v, plan):
     if isinstance(v, dict):
         return AMap(v, plan)
@@ -159,6 +174,8 @@ async def async_outcome(env, text, doc):
 def make_flavour(r, doc, flavour, yields_rng, log):
     if flavour == "plain":
         return doc
+    if flavour == "missing-dict":
+        return missing_doc(doc)
     faults = {}
     if flavour == "faulty":
         keys = []
@@ -250,6 +267,8 @@ def run(spec, ctx):
             continue
         for flavour in ("plain", "async-getter", "faulty"):
             cases.append((text, docs[0], flavour))
+        if i % 4 == 0:
+            cases.append((text, docs[0], "missing-dict"))
     signatures = set()
     for b in range(0, len(cases), 8):
         batch = cases[b:b + 8]
@@ -265,7 +284,7 @@ def run(spec, ctx):
             tasks = []
             for i, (text, doc, flavour, d, _s) in enumerate(prepared):
                 dd = d
-                if flavour != "plain":
+                if flavour not in ("plain", "missing-dict"):
                     dd = wrap(doc, Plan(d._plan.faults, yr, log))
                 t = asyncio.ensure_future(async_outcome(env, text, dd))
                 t._verif_id = i
@@ -350,7 +369,9 @@ def replay(case, ctx):
         return
     env = jsonpath.DEFAULT_ENV
     doc = case["doc"]
-    if case["flavour"] == "plain":
+    if case["flavour"] == "missing-dict":
+        d1 = d2 = missing_doc(doc)
+    elif case["flavour"] == "plain":
         d1 = d2 = doc
     else:
         d1 = wrap(doc, Plan(case.get("faults", {}), None, None))
